@@ -121,6 +121,9 @@ func From(input any) (Any, error) {
 		}
 		return value, nil
 	case *dtpb.Quantity:
+		if v.GetValue() == nil {
+			return nil, fmt.Errorf("%w: Quantity without a value", ErrCantBeCast)
+		}
 		value, err := decimal.NewFromString(v.Value.Value)
 		if err != nil {
 			return nil, err
